@@ -375,6 +375,38 @@ theorem fetch_window (fx : Fix) (z : Zone) (wf : z.WF) (a : Int) (maxlen : Nat) 
             simp [Item.flatten, Val.memBytes, joinRaw, List.map_map, Function.comp_def]
           rw [e]; exact this
 
+/-- at a mapped address the window is never empty: `read_instruction` gets at least the byte at `a`
+    itself (the first item of the read is a non-empty value of the object holding `a`). -/
+theorem fetch_mapped (fx : Fix) (z : Zone) (wf : z.WF) (a : Int) (maxlen : Nat) (hn : 0 < maxlen) (d : ByteDesc)
+    (hd : z.abs a = some d) :
+    ∃ it, fetch fx z a maxlen = some it ∧ it.flatten[0]? = some (some d) := by
+  obtain ⟨v, en, rest, hr, hv⟩ := read_head_mapped z wf a maxlen hn d hd
+  have hex : ∃ it, fetch fx z a maxlen = some it ∧ 0 < it.flatten.length := by
+    unfold fetch
+    rw [hr]
+    cases v with
+    | ex e =>
+      refine ⟨_, rfl, ?_⟩
+      simp only [Item.flatten, List.length_map, Val.memBytes_length]; exact hv
+    | raw bs =>
+      cases fx with
+      | none =>
+        refine ⟨_, rfl, ?_⟩
+        simp only [Item.flatten, List.length_map, Val.memBytes_length]; exact hv
+      | repaired =>
+        refine ⟨_, rfl, ?_⟩
+        simp only [Item.flatten, List.length_map, Val.memBytes_length, Val.len, List.length_append]
+        simp only [Val.len] at hv
+        omega
+  obtain ⟨it, hf, hlen⟩ := hex
+  refine ⟨it, hf, ?_⟩
+  obtain ⟨tail, ht⟩ := fetch_window fx z wf a maxlen it hf
+  have e1 : it.flatten[0]? = (it.flatten ++ tail)[0]? := (List.getElem?_append_left hlen).symm
+  rw [e1, ht, List.getElem?_map, List.getElem?_range hn]
+  simp only [Option.map_some]
+  have e2 : a + ((0 : Nat) : Int) = a := by omega
+  rw [e2, hd]
+
 /-- …so fetching at an address inside the file-backed part of a segment returns file bytes at the
     mapped offset: byte `k` of a fetch window at `p_vaddr + i` is file byte `p_offset + i + k`, as far as the
     window stays inside the segment's file part and outside relocation slots. -/
@@ -429,6 +461,17 @@ theorem block_present (pre post : List WriteOp) (a : Nat) (bs : Bytes)
     have : a + k - a = k := by omega
     rw [this, hx]
   · intro v hv; exact Or.inl (hpost v hv)
+
+/-- `RawExec.relocate(vaddr)`: the zone stays well formed and the whole image moves by
+    `vaddr - (first mapped address)`; the program counter becomes `vaddr`. -/
+theorem relocate_image (t : Task) (wf : t.zone.WF) (vaddr pcbits : Nat) :
+    (relocate t vaddr pcbits).zone.WF ∧
+    (∀ q : Int, (relocate t vaddr pcbits).zone.abs q = t.zone.abs (q - ((vaddr : Int) - t.zone.range.1))) ∧
+    (relocate t vaddr pcbits).pc = vaddr % 2 ^ pcbits := by
+  have w1 := Amoco.Memory.Props.zoneWF_shift t.zone ((vaddr : Int) - t.zone.range.1) wf
+  refine ⟨Amoco.Memory.Props.zoneWF_restruct _ w1, fun q => ?_, rfl⟩
+  show ((t.zone.shift _).restruct).abs q = _
+  rw [Amoco.Memory.Props.abs_restruct _ w1, Amoco.Memory.Props.abs_shift _ _ wf]
 
 /-- the bytes `PE.loadsegment` (repaired) returns for a section: raw data as far as the file has it, zero
     up to `VirtualSize` and up to the section alignment. -/
